@@ -176,6 +176,60 @@ class C03(Check):
                             for ln in lines_of[sh]: out.append('%s %d %d %s E' % (f, Z, ln, hx(E)))
         return out
 
+    def bragg_cutoff(self, ctx, exe, viol):
+        """every built-in crystal (the names of Crystal_GetCrystalsList, by index) x every reflection of a box of Miller indices x the cut-off
+        energy hc/(2d) itself and its neighbouring doubles x Bragg_angle, Q_scattering_amplitude (3 relative angles), F_H, F_H_Partial, with and
+        without slot.  The harness judges (finite value or 0 + one INVALID_ARGUMENT error; same bits without slot) and names each failing call;
+        the failing calls are made once more, one by one, through the single-call operations `cfun` / `cfunp` — those lines are the replay."""
+        from props import c04 as C4
+        from vlib.core import hx, REPO
+        thorough = ctx.tier == 'thorough'
+        hmax, ulps = (9, 6) if thorough else (5, 4)
+        nmax = len(C4.crystal_entries(REPO)) + 12
+        lines = ['cedge %s %d %d' % (C4.esc('#%d' % i), hmax, ulps) for i in range(nmax)]
+        res = C4.run_heap(ctx, exe, [[l] for l in lines])
+        HEAD = re.compile(r'cedge name=(\S+) calls=(\d+) refl=(\d+) skipped=(\d+) ok=(\d+) err=(\d+) nv=(\d+) d=(-?\d+) ow=(\d+)')
+        ENT = re.compile(r'(\d) (-?\d+) (-?\d+) (-?\d+) (x[0-9a-f]{16}) ([SN]) (x[0-9a-f]{16}) (x[0-9a-f]{16}) e=(\d) c=(-?\d+) m=(-?\d+) w=(\d)')
+        WHAT = {1: ('finite value', 'non-finite result without an error'), 2: ('sentinel 0 with one error (code 1 XRL_ERROR_INVALID_ARGUMENT, non-empty message)', 'malformed failure'),
+                3: ('identical value', 'passing no error slot changed the result')}
+        one = hx(1.0); rels = {1: 1.0, 2: 0.5, 3: 1.5}
+        tot = dict(crystals=0, calls=0, reflections=0, succeeded=0, failed=0, violations=0); end = None; cand = []
+        for i, l in enumerate(lines):
+            got, died = res.get(i, ([], 'not run'))
+            x = got[0] if got else ''
+            if died is not None or not x:
+                viol.append(dict(key=l, got=str(died)[-200:], expected='a result (no abort)', what='call aborted (sweep of the Bragg cut-off energies of one crystal)')); continue
+            if x.startswith('cedge end='):
+                end = int(x[10:]) if end is None else end; continue
+            m = HEAD.match(x)
+            if not m:
+                viol.append(dict(key=l, got=x[:300], expected='an answer', what='malformed answer')); continue      # `bad-op`: a broken tie (runner)
+            name = m.group(1); tot['crystals'] += 1
+            for k_, j in (('calls', 2), ('reflections', 3), ('succeeded', 5), ('failed', 6), ('violations', 7)): tot[k_] += int(m.group(j))
+            if int(m.group(9)):
+                viol.append(dict(key=l + '   [crystal %s]' % name, got=x[:300], expected='at most one error stored by one call', what='an error was stored over an existing one inside ONE call (overwrite diagnostic of the library)'))
+            for en in list(ENT.finditer(x[m.end():]))[:4]:      # a few per crystal: the report names failing calls on many crystals
+                fn, h, k, l_, E, sn, vre, vim = int(en.group(1)), int(en.group(2)), int(en.group(3)), int(en.group(4)), en.group(5), en.group(6), en.group(7), en.group(8)
+                if fn in (0, 1): line = 'cfun %d %s %s %d %d %d %s' % (fn, C4.esc(name), E, h, k, l_, one)
+                elif fn in (2, 3): line = 'cfunp %s %s %d %d %d %s %s 2 2 2 q' % (C4.esc(name), E, h, k, l_, one, hx(rels[fn]))
+                else: line = 'cfun %d %s %s %d %d %d %s' % (fn - 2, C4.esc(name), E, h, k, l_, one)
+                fname = ('Bragg_angle', 'Q_scattering_amplitude', 'Q_scattering_amplitude', 'Q_scattering_amplitude', 'Crystal_F_H_StructureFactor', 'Crystal_F_H_StructureFactor_Partial')[fn]
+                cand.append((('N:' if sn == 'N' else '') + line, int(en.group(12)),
+                             '%s(%s, E = %s = %.17g keV, hkl = %d %d %d%s) %s an error slot returned re %s = %r im %s = %r, error set %s code %s message length %s'
+                             % (fname, name, E, unhx(E), h, k, l_, '' if fn in (0, 4, 5) else ', rel_angle %g' % rels[fn], 'without' if sn == 'N' else 'with', vre, unhx(vre), vim, unhx(vim), en.group(9), en.group(10), en.group(11))))
+        if end is None or tot['crystals'] == 0 or end != tot['crystals']:
+            viol.append(dict(key=lines[0], got='crystals swept %d, Crystal_GetCrystalsList count %s' % (tot['crystals'], end), expected='every built-in crystal swept', what='the sweep of the Bragg cut-off energies did not reach the whole list of built-in crystals'))
+        # the failing calls once more through the single-call operations: the standard answer line goes into the report
+        cand = cand[:60]
+        rr = C4.run_heap(ctx, exe, [[c[0]] for c in cand]) if cand else {}
+        for i, (line, w, desc) in enumerate(cand):
+            got, died = rr.get(i, ([], 'not run'))
+            again = got[0] if got and died is None else 'single call: %s' % str(died)[-200:]
+            viol.append(dict(key=line, got='%s | single call: %s' % (desc, again), expected=WHAT.get(w, WHAT[1])[0],
+                             what=WHAT.get(w, WHAT[1])[1] + ' (energy at / next to the Bragg cut-off hc/(2d) of the reflection, d from Crystal_dSpacing)'))
+        tot.update(box='[-%d,%d]^3' % (hmax, hmax), energies_per_reflection=2 * ulps + 1, single_call_replays=len(cand))
+        return tot['calls'] + len(lines) + len(cand), tot
+
     def object_api(self, ctx, ksuf=None):
         """the error contract on the functions that take strings / hand out objects (harness/c04heap.c)"""
         import os
@@ -287,7 +341,13 @@ class C03(Check):
                 if b['e'] or b['rc'] != a['rc']:
                     viol.append(dict(key='N:' + key, got='%s | without slot: %s' % (x, y), expected='identical result', what='passing no error slot changed the result'))
         ncalls += bops
-        st = dict(calls=ncalls, succeeded=ok, failed=fail, kinds=kinds, prefilled_slot_calls=len(pre), bracket_ops=bops, bracket_failures=bfail, error_codes_seen={CODE_NAMES.get(k, str(k)): v for k, v in sorted(codes.items())})
+        # ---- the Bragg cut-off of every reflection: energies bit-identical to hc/(2d) (computed by the harness from the library's own
+        #      Crystal_dSpacing) and the neighbouring doubles — sin(theta) within a few ulp of 1 on either side — through Bragg_angle,
+        #      Q_scattering_amplitude, Crystal_F_H_StructureFactor[_Partial], with and without slot (`cedge`, judged in the harness, one line per crystal)
+        ce_n, ce_st = self.bragg_cutoff(ctx, exe, viol)
+        ncalls += ce_n
+        st = dict(calls=ncalls, succeeded=ok, failed=fail, kinds=kinds, prefilled_slot_calls=len(pre), bracket_ops=bops, bracket_failures=bfail, error_codes_seen={CODE_NAMES.get(k, str(k)): v for k, v in sorted(codes.items())},
+                  bragg_cutoff=ce_st)
         # ---- the _CP functions over the Kissel tables succeed only on the regenerated configuration
         if ksuf:
             kexe = ctx.sc.path('c04heap' + ksuf)
